@@ -1,2 +1,55 @@
-(* C04 — property theorems (placeholder while the proofs are being written). *)
-From JV Require Import Lib.Base Lib.C04Base Model.C04Sources Spec.C04Spec Model.C04Wf.
+(* C04 — property theorems only: sources override each other in the documented order, left to right.
+   Model: Model/C04Sources.v (`pipeline`, in the shape of get_defaults / _load_env_vars / merge_config /
+   apply_config / the argv fold).  Reference semantics: Spec/C04Spec.v (`fold_sources`, the left fold of
+   apply_assignment over defaults, default config files, environment, given items).  Proofs: Proofs/C04*.v. *)
+From JV Require Import Lib.Base Lib.C04Base Model.C04Sources Spec.C04Spec Model.C04Wf
+  Proofs.C04Tree Proofs.C04Merge Proofs.C04Proofs Proofs.C04Props.
+From Coq Require Import List Bool ZArith.
+Import ListNotations.
+
+(* The full statement the property makes (no guard).  It is FALSE of the faithful model: see
+   C04_precedence_unguarded_refuted. *)
+(* precedence_statement c :=  wf_call c = true ->
+     exists t, pipeline c = Ok t /\ observe_values (c_parser c) t = final_values c /\ observe_extra (c_parser c) t = false
+   (Proofs/C04Props.v). *)
+
+(* What is proved: for EVERY well-formed call outside finding class 1 (an append inside the config
+   named by the config environment variable onto a non-empty earlier list) the code-shaped pipeline
+   succeeds, every declared key holds the value of the documented left fold, and no other key is left. *)
+Theorem C04_precedence : forall c, envcfg_append c = false -> precedence_statement c.
+Proof. exact precedence_observed. Qed.
+Print Assumptions C04_precedence.
+
+(* The guard of the theorem is exactly the class function evaluated by the judge. *)
+Theorem C04_guard_is_class_0 : forall c,
+  call_class c = 0%N <-> (wf_call c = true /\ envcfg_append c = false).
+Proof. exact call_class_0. Qed.
+Print Assumptions C04_guard_is_class_0.
+
+(* Later wins: if the last assignment to a key in the documented order is a plain `key: v`, the
+   result holds v for that key whatever came before. *)
+Theorem C04_later_wins : forall c d pre post v,
+  wf_call c = true -> envcfg_append c = false -> In d (c_parser c) ->
+  concat (sources_in_documented_order c) = pre ++ (d_key d, Set_ v) :: post ->
+  (forall a, In a post -> fst a <> d_key d) ->
+  exists t, pipeline c = Ok t /\ prev_val d t = v.
+Proof. exact later_wins. Qed.
+Print Assumptions C04_later_wins.
+
+(* Untouched keys keep the earlier value: assignments to other keys never change a key's value
+   (frame condition of the fold, hence of the pipeline). *)
+Theorem C04_untouched_keys_keep_earlier_value : forall (l : doc) (st : state) (k : tpath),
+  (forall a, In a l -> fst a <> k) ->
+  alist_get k (fold_left apply_assignment l st) = alist_get k st.
+Proof. exact fold_untouched. Qed.
+Print Assumptions C04_untouched_keys_keep_earlier_value.
+
+(* ---- the finding: the unguarded statement is false --------------------------------------------- *)
+Theorem C04_precedence_unguarded_refuted : exists c, ~ precedence_statement c.
+Proof. exact precedence_unguarded_refuted. Qed.
+Print Assumptions C04_precedence_unguarded_refuted.
+
+(* ---- non-vacuity ---------------------------------------------------------------------------------- *)
+Example C04_hypotheses_satisfiable :
+  call_class ex_call = 0%N /\ final_values ex_call = [VTok 7; VList [1; 2; 9; 5]%Z].
+Proof. vm_compute. split; reflexivity. Qed.
